@@ -341,8 +341,13 @@ def c137(ctx):
                     if rb is not None and rb.calls(PEQ):
                         ok, why = True, 'behind %s, which compares its result with the root' % c.name
                         break
-                    # (b) compared with the root on the way here
-                    for q in f.calls(PEQ):
+                    # (b) compared with the root on the way here — directly, or in a bool predicate of the crate that is handed the resolved path
+                    preds7 = []
+                    for q7 in f.sites():
+                        H7 = P.fns.get(q7.callee or '')
+                        if H7 is not None and H7.crate == f.crate and (P.sigs.get(q7.callee) or {}).get('output') == 'bool' and H7.calls(PEQ) and q7.dest is not None:
+                            preds7.append(q7)
+                    for q in f.calls(PEQ) + preds7:
                         if not f.dom(q.bb, s_.bb) or q.dest is None:
                             continue
                         if not any(c.dest['l'] in (reads_locals(f, a) | {(op_place(a) or {}).get('l')}) for a in q.args):
